@@ -14,25 +14,25 @@ import (
 )
 
 var (
-	fScn     = flag.String("sim.scn", "", "scenario name")
-	fSeed    = flag.Int64("sim.seed", 1, "VERIF_SEED")
-	fFrom    = flag.Int64("sim.from", 0, "first run index")
-	fCount   = flag.Int64("sim.count", 100, "number of runs")
-	fOut     = flag.String("sim.out", "", "result file (JSON)")
-	fReplay  = flag.String("sim.replay", "", "replay file")
-	fShrink  = flag.Bool("sim.shrink", true, "minimise failing tapes")
-	fList    = flag.Bool("sim.list", false, "list scenarios as JSON")
-	fKnown   = flag.String("sim.known", "", "known findings file")
-	fMaxFail = flag.Int("sim.maxfail", 3, "stop after this many distinct unknown violations")
-	fBudget  = flag.Duration("sim.time", 0, "wall-clock budget for this worker (0 = none)")
-	fVerbose = flag.Bool("sim.v", false, "print traces")
-	fSamples = flag.Int("sim.samples", 3, "number of sample traces to keep")
-	fFpOut   = flag.String("sim.fpout", "", "write distinct non-trivial fingerprints (binary uint64) here")
-	fMerge   = flag.String("sim.merge", "", "comma separated fingerprint files: print the number of distinct values")
-	fOnly    = flag.String("sim.only", "", "comma separated violation classes this check reports (others are counted as observations)")
+	fScn      = flag.String("sim.scn", "", "scenario name")
+	fSeed     = flag.Int64("sim.seed", 1, "VERIF_SEED")
+	fFrom     = flag.Int64("sim.from", 0, "first run index")
+	fCount    = flag.Int64("sim.count", 100, "number of runs")
+	fOut      = flag.String("sim.out", "", "result file (JSON)")
+	fReplay   = flag.String("sim.replay", "", "replay file")
+	fShrink   = flag.Bool("sim.shrink", true, "minimise failing tapes")
+	fList     = flag.Bool("sim.list", false, "list scenarios as JSON")
+	fKnown    = flag.String("sim.known", "", "known findings file")
+	fMaxFail  = flag.Int("sim.maxfail", 3, "stop after this many distinct unknown violations")
+	fBudget   = flag.Duration("sim.time", 0, "wall-clock budget for this worker (0 = none)")
+	fVerbose  = flag.Bool("sim.v", false, "print traces")
+	fSamples  = flag.Int("sim.samples", 3, "number of sample traces to keep")
+	fFpOut    = flag.String("sim.fpout", "", "write distinct non-trivial fingerprints (binary uint64) here")
+	fMerge    = flag.String("sim.merge", "", "comma separated fingerprint files: print the number of distinct values")
+	fOnly     = flag.String("sim.only", "", "comma separated violation classes this check reports (others are counted as observations)")
 	fProgress = flag.String("sim.progress", "", "file that always holds the index of the run in progress (crash attribution)")
-	fHashes  = flag.String("sim.hashes", "", "write one trace hash per run to this file (determinism self-test)")
-	fRetries = flag.Int("sim.retries", 1, "replay attempts (self-certifying classes may need several)")
+	fHashes   = flag.String("sim.hashes", "", "write one trace hash per run to this file (determinism self-test)")
+	fRetries  = flag.Int("sim.retries", 1, "replay attempts (self-certifying classes may need several)")
 )
 
 var progress, curRun atomic.Int64
@@ -103,50 +103,50 @@ func split(vs []Violation, known []knownFinding) (unknown []Violation, matched [
 }
 
 type failure struct {
-	Scenario  string     `json:"scenario"`
-	Property  string     `json:"property"`
-	Seed      int64      `json:"seed"`
-	Run       int64      `json:"run"`
-	Tape      []uint32   `json:"tape"`
-	OrigLen   int        `json:"orig_tape_len"`
-	Violation Violation  `json:"violation"`
-	Trace     []string   `json:"trace"`
-	Notes     []string   `json:"notes"`
-	TraceHash string     `json:"trace_hash"`
+	Scenario   string    `json:"scenario"`
+	Property   string    `json:"property"`
+	Seed       int64     `json:"seed"`
+	Run        int64     `json:"run"`
+	Tape       []uint32  `json:"tape"`
+	OrigLen    int       `json:"orig_tape_len"`
+	Violation  Violation `json:"violation"`
+	Trace      []string  `json:"trace"`
+	Notes      []string  `json:"notes"`
+	TraceHash  string    `json:"trace_hash"`
 	ShrinkRuns int       `json:"shrink_runs"`
-	Repro     string     `json:"repro,omitempty"`
+	Repro      string    `json:"repro,omitempty"`
 }
 
 type workerOut struct {
-	Scenario    string           `json:"scenario"`
-	Property    string           `json:"property"`
-	Seed        int64            `json:"seed"`
-	From        int64            `json:"from"`
-	Runs        int64            `json:"runs"`
-	Nontrivial  int64            `json:"nontrivial_runs"`
-	Distinct    int64            `json:"distinct_nontrivial"`
-	DistinctAll int64            `json:"distinct_all"`
-	Steps       int64            `json:"steps"`
-	Switches    int64            `json:"switches"`
-	Overlaps    int64            `json:"overlaps"`
-	Truncated   int64            `json:"truncated"`
-	SimTimeNs   int64            `json:"sim_time_ns"`
-	Faults      map[string]int64 `json:"faults"`
-	Hits        map[string]int64 `json:"hits"`
-	Known       map[string]int64 `json:"known"`
+	Scenario    string              `json:"scenario"`
+	Property    string              `json:"property"`
+	Seed        int64               `json:"seed"`
+	From        int64               `json:"from"`
+	Runs        int64               `json:"runs"`
+	Nontrivial  int64               `json:"nontrivial_runs"`
+	Distinct    int64               `json:"distinct_nontrivial"`
+	DistinctAll int64               `json:"distinct_all"`
+	Steps       int64               `json:"steps"`
+	Switches    int64               `json:"switches"`
+	Overlaps    int64               `json:"overlaps"`
+	Truncated   int64               `json:"truncated"`
+	SimTimeNs   int64               `json:"sim_time_ns"`
+	Faults      map[string]int64    `json:"faults"`
+	Hits        map[string]int64    `json:"hits"`
+	Known       map[string]int64    `json:"known"`
 	KnownSample map[string]*failure `json:"known_sample"`
-	Failures    []*failure       `json:"failures"`
-	Samples     []any            `json:"samples"`
-	WallS       float64          `json:"wall_s"`
-	Rechecked   int64            `json:"determinism_rechecks"`
-	Nondet      int64            `json:"determinism_mismatches"`
-	Real        []string         `json:"real"`
-	Stub        []string         `json:"stub"`
-	Doc         string           `json:"doc"`
-	Cases       []string         `json:"cases"`
-	CaseTotal   int              `json:"case_total"`
-	Info        any              `json:"info,omitempty"`
-	Observed    map[string]int64 `json:"observed_other_classes"`
+	Failures    []*failure          `json:"failures"`
+	Samples     []any               `json:"samples"`
+	WallS       float64             `json:"wall_s"`
+	Rechecked   int64               `json:"determinism_rechecks"`
+	Nondet      int64               `json:"determinism_mismatches"`
+	Real        []string            `json:"real"`
+	Stub        []string            `json:"stub"`
+	Doc         string              `json:"doc"`
+	Cases       []string            `json:"cases"`
+	CaseTotal   int                 `json:"case_total"`
+	Info        any                 `json:"info,omitempty"`
+	Observed    map[string]int64    `json:"observed_other_classes"`
 }
 
 func TestMain(m *testing.M) {
